@@ -90,8 +90,14 @@ CLAIMS = {
              "TO END (c01_bam_end_to_end): an accepted 9..1785-byte broadcast served by n due passes puts exactly BAM + n TP.DT frames on the bus "
              "and deletes the record, and ANY node receiving those frames through notify() (any prior state, filter, times, configuration) "
              "delivers PGN/source/255/byte-identical payload exactly once and keeps no record (two-party composition through the wire bytes: "
-             "identifier parse, BAM decode, dispatch, reassembly).  Partial: "
-             "the RTS/CTS composition over 2-4 stacks and all bus schedules (incl. latency 0 re-entrancy) is not one theorem: it is covered by the "
+             "identifier parse, BAM decode, dispatch, reassembly); CONNECTION MODE END TO END (c01_rtscts_end_to_end, c01_rtscts_round, "
+             "c01_tp_dispatch): accepted 9..1785-byte destination-specific message, responder handles the RTS, originator the CTS, then "
+             "rounds (originator pass -> responder handles its TP.DT in order -> originator handles the answers) under ANY schedule that "
+             "finds the record due, any two window limits >= 1, with or without minimum packet interval: after at most n+1 rounds the "
+             "message was delivered exactly once byte-identical, exactly one EndOfMsgACK was reported, and neither side keeps a record "
+             "(invariant over rounds: originator sent j packets and may send up to wn, responder holds exactly those j and its window ends "
+             "at wn; induction on the packets left).  Partial: timeouts/loss are C06's, handlers are atomic here (pre-emption is C08's), and "
+             "the composition over 3-4 stacks with concurrent sessions and all bus schedules (incl. latency 0 re-entrancy) is covered by the "
              "lock-step correspondence (atomic handlers) and the network oracle on real stacks.",
         note="Proved for the code as repaired by fix D23 (BAM PGN of a PDU1 group). Tie: regenerated leaves + lock-step correspondence on "
              "recorded multi-node scripts; oracle: 2-4 real stacks, concurrent transfers both directions, windows 1..255, latencies incl. 0.",
